@@ -84,6 +84,27 @@ func (cs capSpec) guard(g absint.GuardInfo) (accept, ok bool) {
 
 func capacityGuard(g absint.GuardInfo, cs capSpec) (accept, ok bool) { return cs.guard(g) }
 
+// advancedByCopy: n1 is n0 plus what the copy transferred - its result, or the length
+// of its source where the capacity guard in force makes the copy complete.
+func advancedByCopy(o absint.Ops, n0, n1 *absint.Int, cp absint.Event, cs capSpec) bool {
+	if n0 == nil || n1 == nil {
+		return false
+	}
+	if r, ok := cp.Result.(*absint.Int); ok && o.Add(n0, o.Convert(r, n0.W, true, n0.Signed)).Lin.Key() == n1.Lin.Key() {
+		return true
+	}
+	if len(cp.Args) == 2 {
+		if src, ok := cp.Args[1].(*absint.Slice); ok && src.Len != nil && o.Add(n0, o.Convert(src.Len, n0.W, true, n0.Signed)).Lin.Key() == n1.Lin.Key() {
+			for _, g := range cp.PathL {
+				if acc, is := cs.guard(g); is && acc {
+					return true
+				}
+			}
+		}
+	}
+	return false
+}
+
 func C19(ctx *Ctx) {
 	R := ctx.R
 	R.Explanation = "bounded: the writer is interpreted with a symbolic target and payload; its copy and every store it performs carry the guard n+len(d) <= len(code) (the comparison in force on all paths to them), the only other path panics without any store, and with a nil target it returns at once - so n never exceeds the capacity and a refused write changes nothing. order: over the call graph (mod-sets, engine E2), in every function from which the writer is reachable, each instruction that may modify n, address, labels or the dangling-reference maps (directly or through a callee that is not itself safe) is dominated by a call that always passes through the writer; the bytes of the target are stored only by the writer. dry-run: for every emitting method, Label and EmitBytes, the abstract results of the cell without a target equal those of the cell with one for address, tracked flags, label / dangling-map updates and the returned label address (syntactic equality of terms, so they cannot depend on the target, n or the writer's results)."
@@ -188,7 +209,7 @@ func C19(ctx *Ctx) {
 		// n advances by the copied count only
 		n1, _ := run.Final[roles.N].(*absint.Int)
 		if len(copies) == 1 && n1 != nil {
-			if res, ok := copies[0].Result.(*absint.Int); !ok || o.Add(n0, res).Lin.Key() != n1.Lin.Key() {
+			if !advancedByCopy(o, n0, n1, copies[0], cs) {
 				msg = fmt.Sprintf("n after the write is %s, want n + copied count", n1)
 			}
 		}
